@@ -491,6 +491,11 @@ def k1(ck: Check, fm: FuncModel) -> None:
                         and isinstance(val.generators[0].iter, ast.Name) and val.generators[0].iter.id in cand_vars):
                     probs.append(f"line {d.lineno}: the returned list is not `[x | node_space for x in candidates]` "
                                  f"(reduced states, a filtered comprehension, or another list would be returned)")
+        elif isinstance(v, ast.ListComp) and len(v.generators) == 1 and not v.generators[0].ifs \
+                and isinstance(v.elt, ast.BinOp) and isinstance(v.elt.op, ast.BitOr) \
+                and space_key in (fm.key(v.elt.left, rn), fm.key(v.elt.right, rn)) \
+                and isinstance(v.generators[0].iter, ast.Name) and v.generators[0].iter.id in cand_vars:
+            pass        # `return [x | node_space for x in candidates]` without a name for the list
         else:
             probs.append(f"return value `{text(v)[:60]}` of unknown shape")
         ck.ob("K1", fm, n, not probs, "; ".join(probs) if probs else "returned list has candidate provenance and full coordinates")
